@@ -504,7 +504,8 @@ func (w *world) steady(pi int, idc *uint64, r *res.Result) (*viol, string) {
 					atomic.StoreInt32(&stalled, 1) // credits do not come back: datagrams are missing; the checker says which
 					return
 				}
-				w.send(f.s, f.dst, 8+int(atomic.LoadInt32(&left))%93, atomic.AddUint64(idc, 1), pi)
+				id := atomic.AddUint64(idc, 1)
+				w.send(f.s, f.dst, 8+int(id%93), id, pi)
 				r.Count("datagrams_sent", 1)
 				r.Count("steady_datagrams", 1)
 				time.Sleep(gap)
@@ -517,6 +518,14 @@ func (w *world) steady(pi int, idc *uint64, r *res.Result) (*viol, string) {
 		dl := time.Now().Add(10 * time.Second)
 		for len(w.credits) < c.SteadyWindow && time.Now().Before(dl) {
 			time.Sleep(200 * time.Microsecond)
+		}
+		if len(w.credits) < c.SteadyWindow {
+			r.Count("steady_phases_with_credits_missing_at_the_end", 1)
+			if os.Getenv("VTRACE_DEBUG") != "" {
+				for _, f := range use {
+					fmt.Fprintf(os.Stderr, "DEBUG steady: flow sock %d (%s:%d conn=%q) -> %s ; missing %d of window %d\n", f.s.idx, f.s.ip, f.s.port, f.s.connected, f.dst, c.SteadyWindow-len(w.credits), c.SteadyWindow)
+				}
+			}
 		}
 	} else {
 		r.Count("steady_phases_stalled", 1)
